@@ -558,7 +558,7 @@ class Driver:
             return [(s, s.env[node.id])]
         if node.id in ("np", "field", "math", "sys", "time"):
             return [(s, Opq("mod:" + node.id))]
-        if node.id in ("len", "min", "max", "print", "any", "all", "range", "zip", "isinstance", "float", "int", "abs"):
+        if node.id in ("len", "min", "max", "print", "any", "all", "range", "zip", "isinstance", "float", "int", "abs", "hasattr"):
             return [(s, Opq("builtin:" + node.id))]
         if node.id in func.module.assigns or node.id in func.module.functions or node.id in func.module.classes or node.id in func.module.from_imports:
             return [(s, Opq("global:" + node.id))]
@@ -586,7 +586,9 @@ class Driver:
                 return o.time
             if a == "it":
                 return o.it
-            if a in ("copy", "data", "average", "phydata", "isnan", "neq", "nelem", "model", "mesh"):
+            if a in ("model", "mesh"):
+                return Opq("field." + a)
+            if a in ("copy", "data", "average", "phydata", "isnan", "neq", "nelem"):
                 return ("fieldattr", o, a)
             raise AnalysisError("%s:%d field attribute .%s" % (func.qualname, node.lineno, a))
         if isinstance(o, ListObj) and a in ("append", "extend"):
@@ -948,6 +950,21 @@ class Driver:
             if isinstance(a, Lin):
                 return [(s, a)]
             return [(s, Opq(kind))]
+        if n == "builtin:hasattr":
+            o, name = args[0], args[1]
+            if isinstance(o, SelfRef) and isinstance(name, str):
+                if name in s.attrs:
+                    return [(s, True)]
+                if self.p.resolve(self.cls, name) is not None or self.p.class_attr(self.cls, name)[1] is not None:
+                    return [(s, True)]
+                # the attribute may survive from an earlier solve()/restart() on this object
+                s2 = s.fork()
+                s2.attrs[name] = ArrSym("stale_" + name)
+                s2.events.append(("stale-attr", name, ln))
+                s2.bools["hasattr:" + name] = True
+                s.bools["hasattr:" + name] = False
+                return [(s2, True), (s, False)]
+            return [(s, CBool("hasattr"))]
         if n == "global:myclock" or n.startswith("mod:time"):
             return [(s, Opq("clock"))]
         if n == "mod:field.fieldlist":
